@@ -2,14 +2,14 @@
 """Copies confirmed seeded defects from /tmp/seed_out into /verif/seeded/<PID>-mN/ with meta.json and
 (re)writes /verif/seeded/RESULTS.md from the eval.json files. usage: collect_seeded.py [src_root]"""
 import json, os, shutil, sys
-srcs = sys.argv[1:] or ["/tmp/seed_out", "/tmp/seed_out2", "/tmp/seed_out3"]
+srcs = sys.argv[1:] or ["/tmp/seed_out", "/tmp/seed_out2", "/tmp/seed_out3", "/tmp/seed_out4"]
 dst = "/verif/seeded"
 os.makedirs(dst, exist_ok=True)
 rows = []
 pairs = []
 for src in srcs:
     for pid in sorted(os.listdir(src)):
-        for m in ("m1", "m2", "m3", "m4", "m5"):
+        for m in ("m1", "m2", "m3", "m4", "m5", "m6"):
             pairs.append((src, pid, m))
 pairs.sort(key=lambda t: (t[1], t[2]))
 for src, pid, m in pairs:
@@ -24,7 +24,7 @@ for src, pid, m in pairs:
         out = os.path.join(dst, "%s-%s" % (pid, m))
         if confirmed:
             os.makedirs(out, exist_ok=True)
-            for f in ("patch.diff", "demo.py", "NOTE.txt"):
+            for f in ("patch.diff", "patch.orig.diff", "demo.py", "NOTE.txt"):
                 if os.path.exists(os.path.join(d, f)):
                     shutil.copy(os.path.join(d, f), os.path.join(out, f))
             meta = {"property": pid, "breaks": note.splitlines()[0] if note else "",
@@ -51,6 +51,6 @@ with open(os.path.join(dst, "RESULTS.md"), "w") as f:
     f.write("\nConfirmed changes: %d; detected by the property's check (final state): %d.\n" % (n, k))
     first = sum(1 for r in rows if r[2] and r[7] and "DETECTED" in r[7][0]) + sum(1 for r in rows if r[2] and r[7] and len(r[7]) == 1 and "DETECTED" in r[7][0] and False)
     f.write("\nHistory column: the first entry is the verdict of the check as it was *before the change was seen* "
-            "(m1/m2: first-built checks; m3: checks after the first strengthening round; m4/m5: checks after the second round, commit ebf8b00); "
+            "(m1/m2: first-built checks; m3: checks after the first strengthening round; m4/m5: checks after the second round, commit ebf8b00; m6: checks after the third round, commit 605dfab); "
             "later entries are re-runs after strengthening.\n")
 print("rows", len(rows))
